@@ -980,7 +980,8 @@ impl FseEncoder {
     
     /// Parallel compression for large data (real implementation)
     fn compress_parallel(&mut self, data: &[u8], num_blocks: usize) -> Result<Vec<u8>> {
-        let block_size = self.config.block_size;
+        // FseDecoder::decompress only recognises 2..=64 blocks: never produce more
+        let block_size = self.config.block_size.max((data.len() + 63) / 64);
         let chunks: Vec<&[u8]> = data.chunks(block_size).collect();
         
         // If we don't have enough chunks for parallelization, fall back to single-threaded
